@@ -257,13 +257,28 @@ impl Ctx {
         }
         self.nviol.fetch_add(1, Ordering::Relaxed);
         let mut v = self.violations.lock().unwrap();
-        if v.len() < MAX_KEPT_VIOLATIONS * 4 {
-            v.push(Violation {
-                order,
-                key: key.to_string(),
-                what: what.to_string(),
-                replay,
-            });
+        // keep the few smallest cases of every distinct key (classes must never crowd each other out)
+        let same: Vec<usize> = v.iter().enumerate().filter(|(_, x)| x.key == key).map(|(i, _)| i).collect();
+        if same.len() < 3 {
+            if v.len() < 4096 {
+                v.push(Violation {
+                    order,
+                    key: key.to_string(),
+                    what: what.to_string(),
+                    replay,
+                });
+            }
+        } else {
+            // replace the largest-order entry of this key if the new one is smaller
+            let (imax, omax) = same.iter().map(|&i| (i, v[i].order)).max_by_key(|x| x.1).unwrap();
+            if order < omax {
+                v[imax] = Violation {
+                    order,
+                    key: key.to_string(),
+                    what: what.to_string(),
+                    replay,
+                };
+            }
         }
         false
     }
